@@ -36,6 +36,8 @@ pub async fn handle(
             .with_error_context(|error| format!("{COMPONENT} (error: {error}) - failed to create topic for stream_id: {stream_id}, topic_id: {:?}",
                 topic_id
             ))?;
+    // Journal the ID the server has assigned, so that replay cannot pick a different one.
+    command.topic_id = Some(topic.topic_id);
     command.message_expiry = topic.message_expiry;
     command.max_topic_size = topic.max_topic_size;
     let response = mapper::map_topic(topic).await;
